@@ -43,6 +43,7 @@ Ext == IF R.dir = "F" THEN R.hi ELSE R.lo
 TrFirst ==
     /\ IsEvent("try")
     /\ R.n = 0 /\ R.dir = "F" /\ R.kexp = 0
+    /\ R.accok                             \* acceptance = min(1, exp(E0 - E)) of the probe's leapfrog (harness side)
     /\ First(R.res, R.side)
 
 TrTry ==
@@ -50,6 +51,7 @@ TrTry ==
     /\ phase = "loop"
     /\ R.n = n + 1 /\ R.dir = dir
     /\ R.kexp = k                          \* the probe ran at initial * 2^k
+    /\ R.accok
     /\ Try(R.res, R.side, Ext)
 
 \* the return of init(): the outcome the spec reached is the one the code reports, the step size
